@@ -261,6 +261,21 @@ func cmdCheck(args []string) int {
 			cfg.Name, hr.Paths, hr.Done, hr.Pruned, hr.PanicPaths, hr.Aborted, hr.Forks, hr.Discharged, hr.Asserts, hr.Unknown, hr.Solver.Queries,
 			float64(hr.Solver.WallNS)/1e9, hr.WallS, he.Violations, he.Known)
 		if *verbose {
+			type kv struct {
+				k string
+				v int
+			}
+			var fsl []kv
+			for k, v := range hr.ForkSites {
+				fsl = append(fsl, kv{k, v})
+			}
+			sort.Slice(fsl, func(i, j int) bool { return fsl[i].v > fsl[j].v })
+			for i, e := range fsl {
+				if i >= 12 {
+					break
+				}
+				fmt.Printf("    forks x%d at %s\n", e.v, e.k)
+			}
 			for m, n := range hr.AbortMsgs {
 				fmt.Printf("    abort x%d: %s\n", n, m)
 			}
